@@ -356,6 +356,23 @@ public:
     virtual bool
     shouldStripSourceNode(const XalanText&  node);
 
+#if defined(XALAN_C_VERIF_HOOKS)
+    // verification hook (add-only): sizes of the internal stacks and null-ness of the per-call pointers,
+    // for the C06 check
+    template<class VectorType>
+    void
+    verifSizes(VectorType&  v) const
+    {
+        typedef typename VectorType::value_type     value_type;
+        v.push_back(value_type("XP.m_currentNodeStack", long(m_currentNodeStack.size())));
+        v.push_back(value_type("XP.m_contextNodeListStack", long(m_contextNodeListStack.size())));
+        v.push_back(value_type("XP.m_xpathEnvSupport", m_xpathEnvSupport != 0 ? 1L : 0L));
+        v.push_back(value_type("XP.m_domSupport", m_domSupport != 0 ? 1L : 0L));
+        v.push_back(value_type("XP.m_prefixResolver", m_prefixResolver != 0 ? 1L : 0L));
+        v.push_back(value_type("XP.m_xobjectFactory", m_xobjectFactory != 0 ? 1L : 0L));
+    }
+#endif
+
 protected:
 
     typedef XalanObjectCache<
